@@ -94,9 +94,9 @@ CHECKS['C14'] = {
     'technique': TECH,
 }
 CHECKS['C01'] = {
-    'text': 'Split claim. Proved for all inputs on the real text (Verus): the ingredients a session is built from - put is the newest-wins/prefix-deletion merge step and its fold is an order-independent join (U-store, L-join); get_first, get_range (incl. wrap-around ranges) and get_fingerprint return exactly the ordered-map definition (U-first, U-range); the validate callback accepts exactly the valid entries (U-valid-recon). NOT proved: the message-level algorithm process_message is outside both verifiers; the session-level statement (termination, both sides end with the join, empty second session, mirrored counters) is decided only by a bounded stand-in that runs complete sessions through the real Replica API between pairs of small replica states (labelled bounded, not counted in obligations/discharged).',
+    'text': 'Split claim. Proved for all inputs on the real text (Verus): the ingredients a session is built from - put is the newest-wins/prefix-deletion merge step and its fold is an order-independent join (U-store, L-join); get_first, get_range (incl. wrap-around ranges) and get_fingerprint return exactly the ordered-map definition (U-first, U-range); the validate callback accepts exactly the valid entries (U-valid-recon); four pieces of process_message itself, lifted mechanically from its real text (rules R6a/R6c): the loop storing incoming values (only validated values are put, announced iff inserted), the statement splitting a mismatching range (for every split factor the sub-ranges are a chain from x to y or a cycle through pivot 0: nothing of the parent range is left out), the pivot closure (offset within the counted entries, so no panic; pivots repeat every split factor) and the reply filter (an entry is left out of the reply iff the peer covers it). NOT proved: the rest of process_message (fingerprint comparison, recursion anchor, reply assembly) is outside both verifiers; the session-level statement (termination, both sides end with the join, empty second session, mirrored counters) is decided only by bounded stand-ins that run complete sessions between pairs of small replica states through the real Replica API (default config) and through ranger::Store::process_message for split factor 2..=5 x max set size 1..=3 (labelled bounded, not counted in obligations/discharged).',
     'design_ref': 'DESIGN.md sections 0.3, 0.4 (C01)',
-    'note': 'process_message itself is unverified (bounded executions only); default SyncConfig only; redb-backed store only.',
+    'note': 'process_message as a whole is unverified (four lifted pieces are; bounded executions for the session); redb-backed store only (the in-memory store is the same code over an in-memory redb backend).',
     'technique': TECH + '; bounded stand-in for process_message',
 }
 CHECKS['C06'] = {
